@@ -163,6 +163,10 @@ Theorem C19_outline_complete_full_witnesses :
 Proof. exact full_cover_witnesses. Qed.
 Print Assumptions C19_outline_complete_full_witnesses.
 
+Theorem C19_outline_complete_full_refuted : ~ C19_outline_complete_full.
+Proof. exact outline_complete_full_refuted. Qed.
+Print Assumptions C19_outline_complete_full_refuted.
+
 (* Proved part, for EVERY syntactically valid file (no layout hypothesis).
    * `In (l, false, ofl) (top_local_decls b nm)`: a top-level `local` / `local function` statement of the main block
      declares nm at identifier Loc l; ofl = the Loc of the function literal if its value is one (`local function f` or
@@ -250,6 +254,18 @@ Example C19_outline_globals_lexical_guards :
   map (fun nm => parsed_ok (asgU_block nm) w_rich) [n_q; n_cfg; n_h; n_t; n_p; n_M] = [true; true; true; true; false; false] /\
   (exists ss, outline_of_bytes fx_all w_lex = Some ss /\ map s_key ss = [[102%N]; n_x; [103%N]]).
 Proof. exact lexical_guard_examples. Qed.
+
+(* ---------------------------------------------------------------------- files of a workspace
+   The state that FindAllSymbol of file i reads in a workspace (Symbols.outline_state: `orig` = the first-pass tables of
+   the files, `merged` = after the workspace merge of the "nodefine" members) is, for the deployed code, the merge of
+   file i alone: members contributed by other files are skipped (foreign-member repair).  So every theorem above, stated
+   for `outline_of_bytes` / `finalize st`, holds for each file of ANY workspace (the driver of leg c19.docsym computes
+   the model's answer through outline_state). *)
+Theorem C19_outline_own_file :
+  forall orig merged i st,
+    nth_error orig i = Some st -> outline_state deployed orig merged i = Some (finalize st).
+Proof. exact outline_state_own_file. Qed.
+Print Assumptions C19_outline_own_file.
 
 (* ---------------------------------------------------------------------- workspace/symbol, candidate list (partial)
    DESIGN `C19_workspace_exact` (score-assumption -> #perfect <= maxSymbols -> the exact-name query returns an entry at
